@@ -463,15 +463,35 @@ def case_e2e(c: dict) -> dict:
     # brentq guarantees |v - root| <= xtol = errTol; the pressure noise is tuned by the solver (pressAbsErrTol) to move the
     # root by ~1% of errTol, so the sign change is probed at 1.25*errTol
     lo, hi = max(v - 1.25 * errTol, vmin), min(v + 1.25 * errTol, vmax)
-    (plo, *_), a1, a2 = P(lo, wp)
-    (phi, *_), b1, b2 = P(hi, wp)
-    scale = max(abs(plo), abs(phi))
-    # pressures at the probes are known to the iteration tolerance pRel*|P| (+ the solver's absolute floor)
+    # The discretised pressure is a function of the velocity AND of the wall parameters an evaluation starts from (they fix the
+    # grid mapping): on coarse grids the same velocity gives pressures that differ by the discretisation error (3e-3 relative
+    # at M = 20 for cubicB, i.e. 2e-4 in the root). "The pressure" whose zero solveWall brackets is the documented one: started
+    # from the linear interpolation, in the velocity, between the converged parameters at the two ends of the window, with the
+    # absolute pressure tolerance the solver derives from errTol. The probes follow that protocol on the fresh solver.
+    wp0 = WallParams(widths=solver.initialWallThickness * np.ones(am.nf), offsets=np.zeros(am.nf))
+    eom.pressAbsErrTol = 1e-8
+    pmax_, wpmax, brmax, *_ = eom.wallPressure(vmax, wp0)
+    pmin_, wpmin, brmin, *_ = eom.wallPressure(vmin, wp0)
+    eom.pressAbsErrTol = 0.01 * errTol * (1 - c["pRel"]) * min(abs(pmin_), abs(pmax_)) / 4
+
+    def Psolver(vv):
+        f = (vv - vmin) / (vmax - vmin)
+        return float(eom.wallPressure(vv, wpmin + (wpmax - wpmin) * f, boltzmannResultsInput=brmin + (brmax - brmin) * f)[0])
+
+    plo = pmin_ if lo <= vmin + 1e-12 else Psolver(lo)
+    phi = pmax_ if hi >= vmax - 1e-12 else Psolver(hi)
     if hi >= vmax - 1e-12 and phi <= 0 and abs(v - vmax) < 2 * errTol:
         r.tag("root-at-window-top")
     r.true("pressure-negative-below", plo < 0 or lo <= vmin + 1e-12, plo=float(plo), lo=lo, v=v)
     r.true("pressure-positive-above", phi > 0 or hi >= vmax - 1e-12, phi=float(phi), hi=hi, v=v)
-    r.detail.update(plo=float(plo), phi=float(phi), p_at_v=float(p0))
+    # recorded, not judged: the same probes started from the RETURNED wall parameters (another grid mapping). A sign there that
+    # differs from the solver's own means the configured errTol is below the discretisation floor of this grid size.
+    eom.pressAbsErrTol = 1e-8
+    (plo2, *_), _, _ = P(lo, wp)
+    (phi2, *_), _, _ = P(hi, wp)
+    if not (plo2 < 0 < phi2) and lo > vmin + 1e-12 and hi < vmax - 1e-12:
+        r.tag("observation(errTol-below-discretisation-floor)")
+    r.detail.update(plo=float(plo), phi=float(phi), p_at_v=float(p0), plo_from_returned_params=float(plo2), phi_from_returned_params=float(phi2))
     return r.result()
 
 
